@@ -9,6 +9,9 @@
 (*          with a newline, "split-raw": as Content::encode writes them; merge = "yes" when two streams   *)
 (*          meet in two regular characters), re-encoded by Content::encode(Content::decode(..)) ("reenc"),*)
 (*          and after save_to + load_mem ("reload")                                                       *)
+(* A record with k = "xc" is a document of several pages [fonts, ops, res] and a list of calls           *)
+(*   [v, nums, call, chunks, et] of extract_text_chunks / extract_text with page-number lists, in memory   *)
+(*   ("mem") and after save_to + load_mem ("reload"); judged by JudgeCall (clause (e)).                     *)
 (* The model is run on (fonts, ops) and every observation is compared with it EXACTLY; the clauses (a)-(d)*)
 (* of the declarative layer are evaluated on the observed values.  Only what C16 states can be a          *)
 (* violation (vs): inside the statement's domain (InDomain) extract_text must return the shown text; the  *)
@@ -73,9 +76,54 @@ Judge(r) ==
     IN [v |-> IF vs # <<>> THEN vs[1] ELSE IF dr # <<>> THEN "ok-drift" ELSE "ok-exact", cat |-> cat, vs |-> vs, dr |-> dr,
         nobs |-> Len(r.obs), model |-> [chunks |-> model, et |-> met]]
 
+\* A document of several pages and a list of calls [v, nums, call, chunks, et] ("mem" | "reload"): every call is
+\* compared exactly with the call-level model; clause (e) is evaluated on the observed one-page calls.
+JudgeCall(r) ==
+    LET doc == [p \in 1..Len(r.pages) |-> [fm |-> FmOf(r.pages[p]), ops |-> r.pages[p].ops]]
+        Obs(v, nums) == {i \in 1..Len(r.calls) : r.calls[i].v = v /\ r.calls[i].nums = nums}
+        GoodAlone(v, n) == \E i \in Obs(v, <<n>>) : CallReturnsShown(doc, <<n>>, EtOf(r.calls[i]))
+        unusable == {<<p, i>> \in (1..Len(r.pages)) \X (1..8) :
+                        i <= Len(r.pages[p].fonts) /\ r.pages[p].fonts[i].okind # r.pages[p].fonts[i].kind}
+        One(o) ==
+            LET ch == ChunksOf(o)
+                et == EtOf(o)
+                model == CallChunks(doc, o.nums)
+                dom == CallInDomain(doc, o.nums)
+                good == CallReturnsShown(doc, o.nums, et)
+                crashed == o.call \in {"panic", "build-panic"}
+                lost == dom /\ ~good /\ o.call # "save-load-failed"
+                alone == \A k \in 1..Len(o.nums) : GoodAlone(o.v, o.nums[k])
+                memgood == \E i \in Obs("mem", o.nums) : CallReturnsShown(doc, o.nums, EtOf(r.calls[i]))
+                singles == [k \in 1..Len(o.nums) |->
+                               IF Obs(o.v, <<o.nums[k]>>) # {} THEN ChunksOf(r.calls[CHOOSE i \in Obs(o.v, <<o.nums[k]>>) : TRUE]) ELSE <<>>]
+                haveSingles == \A k \in 1..Len(o.nums) : Obs(o.v, <<o.nums[k]>>) # {}
+                why == IF crashed THEN "extract.panic"
+                       ELSE IF Len(o.nums) > 1 /\ alone THEN "extract.e.page-list"      \* every page alone is fine, the list is not
+                       ELSE IF o.v = "reload" /\ memgood THEN "extract.d.reload"
+                       ELSE IF ~ClauseC(ch, et) THEN "extract.c"
+                       ELSE "extract.a"
+            IN [vs |-> If(lost, why),
+                dr |-> If(~lost /\ o.call # "save-load-failed" /\ (ch # model \/ et # ExtractText(model)), "exact.call." \o o.v)
+                       \o If(~lost /\ haveSingles /\ Len(o.nums) > 1 /\ ~ClauseE(ch, singles), "e.call." \o o.v)
+                       \o If(~lost /\ ~ClauseC(ch, et), "c.call." \o o.v),
+                dom |-> dom, multi |-> Len(o.nums) > 1]
+        all == [i \in 1..Len(r.calls) |-> One(r.calls[i])]
+        vs == FoldLeft(LAMBDA acc, x : acc \o x.vs, <<>>, all)
+              \o If(\E q \in unusable : r.pages[q[1]].fonts[q[2]].pre = "yes", "extract.font-not-decodable")
+        dr == FoldLeft(LAMBDA acc, x : acc \o x.dr, <<>>, all)
+              \o If(\E q \in unusable : r.pages[q[1]].fonts[q[2]].pre # "yes", "fontmap")
+        ndm == Cardinality({i \in 1..Len(all) : all[i].dom /\ all[i].multi})
+        \* do two pages bind the same name to different fonts?
+        collide == \E p, q \in 1..Len(doc) : p # q /\ \E n \in DOMAIN doc[p].fm : n \in DOMAIN doc[q].fm /\ doc[p].fm[n] # doc[q].fm[n]
+    IN [v |-> IF vs # <<>> THEN vs[1] ELSE IF dr # <<>> THEN "ok-drift" ELSE "ok-exact",
+        cat |-> IF ndm > 0 THEN (IF collide THEN "call-domain-collision" ELSE "call-domain") ELSE "call-outside",
+        vs |-> vs, dr |-> dr, nobs |-> Len(r.calls),
+        model |-> [calls |-> [i \in 1..Len(r.calls) |-> [chunks |-> CallChunks(doc, r.calls[i].nums),
+                                                          et |-> ExtractText(CallChunks(doc, r.calls[i].nums))]]]]
+
 Init == l = 1
 Next == /\ l <= Len(Recs)
-        /\ PrintT(<<"VERDICT", ToJson([i |-> l] @@ Judge(Recs[l]))>>)
+        /\ PrintT(<<"VERDICT", ToJson([i |-> l] @@ (IF Recs[l].k = "xc" THEN JudgeCall(Recs[l]) ELSE Judge(Recs[l])))>>)
         /\ l' = l + 1
 Spec == Init /\ [][Next]_l
 Consumed == TLCGet("stats").diameter = Len(Recs) + 1
